@@ -93,7 +93,11 @@ prop("C17", True,
      "Not decided: strconv's contract (trusted). Bounds: member counts {1,2,3} per level realise every index predicate the appenders may test (i==0, i==len-1 and their negations); predicates on other positions would be UNDECIDED.",
      None)
 prop("C18", False, "", "", "", NOT_YET)
-prop("C19", False, "", "", "", NOT_YET)
+prop("C19", True,
+     "type-level conformance check (go/types.Implements of the AStar graph argument against gonum's path.Weighted), max-accumulator shape rule on every store of the heuristic's divisor, table/loop rules for weights and totals, pairing rule for adjacency stores",
+     "(R1) the static type of the graph passed to gonum path.AStar implements path.Weighted — the optional interface AStar asserts before silently falling back to unit costs (near-misses are reported with both signatures); (R2) the field the time heuristic divides by is a running maximum of link speeds at every store (admissibility direction); (R3) Weight returns the time/length field per option with no numeric default, time = length/speed, the route loop covers every consecutive node pair and sums the appended link's own length and time; (R4) adjacency stores are mirrored.",
+     "Not decided: optimality of gonum's A* itself, node snapping tolerance (newNode / op.PointEquals), behaviour for disconnected nodes.",
+     None)
 prop("C20", False, "", "", "", NOT_YET)
 
 def main():
